@@ -670,7 +670,14 @@ func verifSchedLoop() {
 			}
 		}
 		verifSched.mu.Lock()
-		if t == nil || t.done {
+		if t == nil {
+			// the thread the schedule names does not exist natively: the replay has drifted
+			// from the model; give up steering and let everything run freely
+			verifSched.drifted = "no such thread"
+			verifSched.mu.Unlock()
+			break
+		}
+		if t.done {
 			verifSched.mu.Unlock()
 			continue
 		}
